@@ -279,8 +279,36 @@ def run(ck):
                        latt.fmat_mul(latt.fmat_T(Ub), latt.fmat_mul(bcc.g, Ub)), [[(o, o, o)]], None, latt.fmat_mul(bcc.Aq, Ub))
     probes = {probe1.label, probe2.label}
     specs += [probe1, probe2]
+    # magnetic supercells with an ANTI-translation (pure translation + spin reversal) on lattices with 3-, 4-, 6-fold axes:
+    # G must contain {R|t} for every rotation R and the anti-translation t (needs the phase -1 for every rotation type)
+    named = {s_.label: s_ for s_ in latt.named_specs()}
+    afm = []
+    for nm, w, vec in (("hcp", (0, 0, 1), None), ("hcp", (0, 0, 1), (0, 0, 1)), ("sc", (1, 1, 1), None), ("sc", (0, 0, 1), (0, 0, 1)),
+                       ("fcc", (1, 1, 1), None), ("bcc", (1, 1, 1), None), ("square", (1, 1), None), ("tria", (1, 0), None)):
+        b = named[nm]
+        afm.append(latt.afm_supercell(b, w, [[vec for _ in ul] for ul in b.basis] if vec else None,
+                                      label="%s+afm%s%s" % (nm, "".join(map(str, w)), "-vector" if vec else "")))
+    if ck.quick:
+        keep = [a for a in afm if a.label in ("hcp+afm001", "sc+afm111", "fcc+afm111")]
+        rest = [a for a in afm if a not in keep]; rng.shuffle(rest)
+        afm = keep + rest[:2]
+    nafm = ck.n(6, 120)
+    tries = 0
+    while nafm > 0 and tries < 2000:
+        tries += 1
+        dim_ = rng.choice([2, 3, 3])
+        sysm_ = rng.choice([None, "hex", "square"] if dim_ == 2 else [None, None, "hex", "cubic", "fcc", "bcc", "rhomb", "tet"])
+        b = latt.random_spec(rng, dim=dim_, system=sysm_, maxatoms=3, nchem_max=2, spin_mode=rng.choice(["none", "scalar", "vector"]))
+        w = tuple(rng.choice([0, 1]) for _ in range(b.dim))
+        if not any(w): w = tuple(1 for _ in range(b.dim))
+        if rng.random() < 0.4: w = tuple(1 for _ in range(b.dim))
+        afm.append(latt.afm_supercell(b, w)); nafm -= 1
+    afmlabels = {a.label for a in afm}
+    specs += afm
     for spec in specs:
         vs = variants(ck, rng, spec) if spec.label not in probes else [("noreduce", {"noreduce": True}, None)]
+        if spec.label in afmlabels:
+            vs = [("sym", {}, None)] + ([("noreduce", {"noreduce": True}, None)] if rng.random() < 0.5 else [])
         if spec.label in forced and spec.label not in seen_forced:
             seen_forced.add(spec.label)
             if not any(v[0] == "NOSYM" for v in vs): vs.append(("NOSYM", {"NOSYM": True}, None))
